@@ -91,7 +91,7 @@ class VLoop(asyncio.BaseEventLoop):
         return sorted((t for t in self.vtasks if not t.done()), key=lambda t: t.serial)
 
 
-def run(main_factory, *, loop=None, shutdown=True, result=None, before_shutdown=None):
+def run(main_factory, *, loop=None, shutdown=True, result=None, before_shutdown=None, close=True):
     """Mirror of asyncio.run on a VLoop.
 
     main_factory: callable returning the main coroutine (called with the loop current).
@@ -133,11 +133,12 @@ def run(main_factory, *, loop=None, shutdown=True, result=None, before_shutdown=
     finally:
         asyncio.set_event_loop(None)
         events._set_running_loop(None)
-        close_leftovers(loop)
-        try:
-            loop.close()
-        except Exception:  # noqa
-            pass
+        if close:
+            close_leftovers(loop)
+            try:
+                loop.close()
+            except Exception:  # noqa
+                pass
     return outcome, loop
 
 
